@@ -18,20 +18,20 @@ TEXT = {
               "Kani/CBMC bounded model checking with all default safety checks and unwinding assertions on every public parser, defragmenter histories and formatting"),
     "C02": _t("The property quantifies over all header values, lengths and cut points, which are symbolic here (256 types x 65536 lengths x versions x every truncation), incl. the 16640/16641 cap boundary on a 16650-byte buffer.",
               "Kani/CBMC bounded model checking against a reference framing oracle; plaintext dispatcher wired with marker stubs"),
-    "C03": _t("Per content type the parser output is compared with a maximal-well-formed-prefix oracle on symbolic payloads; one-step and two-step parsing are each proven equal to the same oracle.",
-              "Kani/CBMC differential check against per-content-type reference decoders; handshake list logic with body parsers stubbed"),
+    "C03": _t('Per content type the parser output is compared with a maximal-well-formed-prefix oracle on symbolic payloads; one-step and two-step parsing are each proven equal to the same oracle; handshake list logic is run with symbolic message types and 24-bit lengths and the 15 body parsers stubbed.',
+              'Kani/CBMC differential check against per-content-type reference decoders; handshake list logic with body parsers stubbed'),
     "C04": _t("Each handshake body parser is compared with a three-valued RFC reference decoder on symbolic bytes; all length fields are symbolic over their full range.",
               "Kani/CBMC differential check of every handshake body parser against RFC reference decoders; dispatcher wiring with marker stubs over all 256 types"),
-    "C05": _t("Dispatch tables are decided for all 65536 extension types with content parsers stubbed by markers; each content parser is compared with a reference decoder on symbolic bytes.",
-              "Kani/CBMC: dispatch tables over all 65536 types with marker stubs + per-type differential content decoding"),
+    "C05": _t('Dispatch tables are decided for all 65536 extension types with content parsers stubbed by markers (and cross-checked on the MIR switch tables by an SMT query); each content parser is compared with a reference decoder on symbolic bytes; counterexamples of stubbed harnesses are replayed natively through un-stubbed twins.',
+              'Kani/CBMC: dispatch tables over all 65536 types with marker stubs + per-type differential content decoding; MIR->SMT cross-check of the tables', 'kani+mir2smt'),
     "C06": _t("Provenance of every returned slice (pointer range inside the consumed input) and one-byte-extension induction are asserted on symbolic inputs.",
               "Kani/CBMC pointer-provenance assertions and one-byte extension induction on symbolic buffers"),
-    "C07": _t("The defragmenter is run in lock-step with a reference defragmenter on symbolic fragments and cut points; the 10 MiB guard arithmetic is decided over 64-bit bit-vectors from MIR.",
-              "Kani/CBMC lock-step against a reference defragmenter (model callee + real heartbeat/app-data callee); size guard via MIR->SMT"),
+    "C07": _t('One call of symbolic kind from an arbitrary valid defragmenter state (built through a cfg-guarded hook) is compared with a reference defragmenter: base case plus this inductive step covers call histories of any length for the model payload parser; 2- and 3-call lock-step runs, a 64 KiB boundary step and a real-callee heartbeat run add witnesses; the 10 MiB guard arithmetic is decided over 64-bit bit-vectors from MIR.',
+              'Kani/CBMC inductive step + lock-step against a reference defragmenter (model callee; real heartbeat callee for the empty-first-fragment history); size guard via MIR->SMT', 'kani+mir2smt'),
     "C08": _t("The abstract domain (25 states x 21 message kinds x direction x session-id presence x 256 severities) is finite and fully symbolic, so the one-step relation is decided exhaustively; equality of the step relation with the reference table gives equality of the accepted sequence language.",
               "Kani/CBMC: implementation step function == reference transition table on all cells with symbolic payloads"),
-    "C09": _t("Values with symbolic field contents and concrete shapes are serialized, length fields are re-derived by an independent walk, and the bytes are parsed back and compared.",
-              "Kani/CBMC round trip serialize -> independent length walk -> parse -> compare, on symbolic field values"),
+    "C09": _t('Values with symbolic field contents and concrete shapes are serialized, every emitted length field is re-derived by an independent walk, the output is staged into a local array with the asserted header bytes as constants and parsed back by the real parsers, and the fields are compared.',
+              'Kani/CBMC round trip serialize -> independent length walk -> parse -> compare, on symbolic field values'),
     "C10": _t("DTLS header fields (epoch, 48-bit sequence, 24-bit lengths/offsets) are symbolic over their full width and compared with reference decoders; bodies are compared per type.",
               "Kani/CBMC differential check against DTLS reference decoders; handshake dispatcher with marker stubs"),
     "C11": _t("Each enumerated field is symbolic over its whole 8/16-bit domain inside an otherwise concrete well-formed structure.",
@@ -44,8 +44,8 @@ TEXT = {
               "Kani/CBMC differential check against an RFC 6962 reference decoder"),
     "C15": _t("Accessors and constructors are run on values with symbolic fields; rand_time is decided over all 2^32 leading words.",
               "Kani/CBMC field-identity assertions on symbolic hello values"),
-    "C16": _t("The multi-record wrappers are decided by (a) the MIR shape many1(complete(P)), (b) a solver-checked lemma about nom's many1(complete(p)) and (c) small end-to-end instances.",
-              "Kani/CBMC lemma on nom many1(complete(p)) + MIR shape check of the wrappers + small end-to-end instances"),
+    "C16": _t("Decided in pieces: a solver-checked lemma about nom's many1/many0(complete(p)) including element Failure, the MIR shape of the two wrappers (exactly many1(complete(single-record parser)) on the unmodified input; decisive: another shape is inconclusive), the single-record parsers never return Failure and frame exactly, tls_parser == parse_tls_plaintext on symbolic input, and trivial end-to-end inputs.",
+              'Kani/CBMC lemma on nom many1(complete(p)) + MIR shape check of the wrappers + single-record framing harnesses + small end-to-end instances', 'kani+mir2smt'),
     "C17": _t("Constants, name tables and helper functions are extracted from MIR and decided over the full 8/16-bit domains as bit-vector queries; conversions and numeric text are decided on compiled code.",
               "MIR->SMT bit-vector queries (z3, cross-checked with cvc5) over full code-point domains + Kani/CBMC for conversions and numeric text", "mir2smt+kani"),
     "C18": _t("The framing, payload, extension and key-exchange harness sets are re-discharged on the crate compiled with default features, without default features and with serialize; equality with one configuration-independent oracle gives agreement across configurations.",
